@@ -166,9 +166,13 @@ CHECKS["C16"] = dict(
     engine="authz", technique=_AUTHZ,
     text="Finite table property: every registered route of the main app x 6 path spellings x 4 methods x 5 token states x 5 "
          "carriers is executed with OpenAPI auth on; NoDataWithoutToken and ValidTokenPasses are evaluated on all "
-         "observations. TLA+ is used here as exhaustive case enumerator and requirement evaluator, not as a temporal model.",
-    note="HTTP leg only so far: the gRPC request types and the cluster token are not yet driven (planned leg); tokens are "
-         "placed in the token cache directly", design_ref="5 C16")
+         "observations; gRPC leg: every registered request type (+ ServerCheck + one unregistered name) x 2 carriers x 5 token "
+         "states x 7 cluster-token states sent to the real tonic services over a channel with an established bi-stream; "
+         "GrpcNoDataWithoutToken, ClusterNeedsClusterToken (+ the two 'valid passes' sanity rules) evaluated on all. "
+         "TLA+ is used here as exhaustive case enumerator and requirement evaluator, not as a temporal model.",
+    note="tokens are placed in the token cache directly (valid / expired); gRPC services are wired as in main.rs (the binary's "
+         "own wiring is not linked); one cluster-token value; auth-off and no-cluster-token configurations are outside the property",
+    design_ref="5 C16")
 CHECKS["C17"] = dict(
     engine="authz", technique=_AUTHZ,
     text="Finite table property: every registered console route x 6 spellings x 4 methods x 11 credentials (no / garbage / "
